@@ -31,7 +31,32 @@ fn kind(f: &ast::Field) -> &'static str {
     }
 }
 
+fn parse_size(k: &str, n: usize) -> Size {
+    match k {
+        "static" => Size::Static(n),
+        "dynamic" => Size::Dynamic,
+        _ => Size::Unknown,
+    }
+}
+
 fn main() {
+    let args: Vec<String> = std::env::args().collect();
+    if args.len() > 2 && args[1] == "--srcloc" {
+        // replay of a C12 counterexample: --srcloc <offset> <line starts...>
+        let offset: usize = args[2].parse().unwrap();
+        let starts: Vec<usize> = args[3..].iter().map(|s| s.parse().unwrap()).collect();
+        let loc = ast::SourceLocation::new(offset, &starts);
+        println!("{} {} {}", loc.offset, loc.line, loc.column);
+        return;
+    }
+    if args.len() > 6 && args[1] == "--size" {
+        // replay of a size-lattice counterexample: --size <kind a> <n a> <kind b> <n b> <m>
+        let a = parse_size(&args[2], args[3].parse().unwrap());
+        let b = parse_size(&args[4], args[5].parse().unwrap());
+        let m: usize = args[6].parse().unwrap();
+        println!("{} {} {}", sz(a + b), sz(a * b), sz(a * m));
+        return;
+    }
     for path in std::env::args().skip(1) {
         let mut sources = ast::SourceDatabase::new();
         let file = match parser::parse_file(&mut sources, &path) {
